@@ -1,11 +1,10 @@
 /* C09: format_data (hex dump) geometry. The complete text handed to write_data is captured and decoded here by an
  * independent dump parser. Cells: SIZE (data length), ALIGN (start_address & 15), FLAGS (PrintDataFlags without colour and
- * float columns), WIDTH (digits of the address column expected for the cell). Data bytes symbolic (all 256 values), the two
- * iovec cut points symbolic (0 <= c1 <= c2 <= SIZE: every 1-, 2- and 3-way partition incl. empty parts).
- *   ADDR 0: FLAGS contain OFFSET_64_BITS (WIDTH 16); start_address = (symbolic 64-bit & ~15) | ALIGN  -> every address incl.
- *           around 2^32 and up to 2^64.
- *   ADDR 1: start_address = START (cell) + ALIGN, automatic width: 2/4/8/16 digits for end address <= 0x100 / 0x10000 /
- *           0x100000000 / above.
+ * float columns), START (start address, any 64-bit value), C1 <= C2 (iovec cut points: the data is passed as the three iovecs
+ * [0,C1) [C1,C2) [C2,SIZE), parts may be empty), WIDTH (digits of the address column expected for the cell: forced by an
+ * OFFSET_*_BITS flag, otherwise 2/4/8/16 for end address <= 0x100 / 0x10000 / 0x100000000 / above). Data bytes symbolic (all
+ * 256 values). Sizes, addresses and cut points have to be concrete: the function derives every loop bound from
+ * start_address + sum(iov_len), which CBMC cannot fold when any of them is symbolic (no verdict in 300 s even for size 0).
  * Checked for every line L of the ceil((ALIGN+SIZE)/16) lines: address column == (start & ~15) + 16 L in WIDTH upper-case
  * zero-padded hex digits; separator; column c shows " XX" with XX == data[(line address + c) - start] iff that address lies
  * in [start, start+SIZE), three blanks otherwise; ASCII column shows the byte itself when 0x20..0x7E, a blank otherwise.
@@ -20,6 +19,7 @@ int64_t w_format_data(uint8_t* data, uint64_t n, uint64_t c1, uint64_t c2, uint6
 #define F_ASCII 0x02
 #define F_COLLAPSE 0x20
 #define F_SKIPSEP 0x40
+#define ALIGN ((START) & 15)
 #define NL ((ALIGN + SIZE + 15) / 16)
 #define SEPW ((FLAGS & F_SKIPSEP) ? 0 : 2)
 #define ASCW ((FLAGS & F_ASCII) ? (((FLAGS & F_SKIPSEP) ? 1 : 3) + 16) : 0)
@@ -30,22 +30,12 @@ static uint8_t hexch(uint32_t v) { return (uint8_t)(v < 10 ? '0' + v : 'A' + (v 
 void harness(void) {
   uint8_t data[SIZE + 1], text[CAP + 1];
   in_bytes(data, SIZE);
-  uint64_t c1 = in_range(0, SIZE), c2 = in_range(0, SIZE);
-  ASSUME(c1 <= c2);
-#if ADDR == 0
-  uint64_t start = (in_u64() & ~(uint64_t)15) | ALIGN;
-#else
-  uint64_t start = (uint64_t)START + ALIGN;
-#endif
+  uint64_t c1 = C1, c2 = C2;
+  uint64_t start = (uint64_t)START;
   uint64_t first_line = start & ~(uint64_t)15;
   /* does the dumped range, rounded out to whole lines, reach the end of the 64-bit address space? */
-  int reaches_top = first_line > (uint64_t)0 - (uint64_t)16 * NL || first_line == (uint64_t)0 - (uint64_t)16 * NL;
-#ifdef KF_WRAP_EXCL
-  ASSUME(!reaches_top);
-#endif
-#ifdef KF_WRAP_ONLY
-  ASSUME(reaches_top);
-#endif
+  int reaches_top = NL > 0 && first_line >= (uint64_t)0 - (uint64_t)16 * NL;
+  (void)reaches_top; /* cells with reaches_top are the known-finding probes */
   int64_t r = w_format_data(data, SIZE, c1, c2, start, FLAGS, text, CAP);
   OBS(r);
   ASSERT(r >= 0, "format_data does not throw and the text fits the expected size");
